@@ -3422,6 +3422,11 @@ let mc_state_file f =
 let mc_fs_of b =
   { state_file = b; tmp_file = None }
 
+(** val mc_fs_make : byte list -> byte list option -> fs **)
+
+let mc_fs_make b t =
+  { state_file = b; tmp_file = t }
+
 (** val mc_to_map : entries -> smap **)
 
 let mc_to_map =
